@@ -262,3 +262,45 @@ def register_origin(reg):
         mutants=[('origin = origin[::-1]  # flip to (x, y) order', 'origin = origin'),
                  ('(np.array(self.data.shape) - 1.0) / 2.0', '(np.array(self.data.shape)) / 2.0')],
     ))
+    register_gridded(reg)
+
+
+def register_gridded(reg):
+    """GriddedPSFModel "equals the stored ePSF at each grid position": the origin added to every
+    oversampled offset is the array centre (x, y order, half-integers for even sizes), and the grid
+    cell used for a position is the one that contains it (the nearest one outside the grid)."""
+    reg.record('GriddedPSFModelData', {'data': ('arr', 3, 'real')})
+    reg.add(Contract(
+        target=f'{G}.origin', props=['C13'], kind='property',
+        params={'self': 'GriddedPSFModelData'},
+        ensures=[('array-centre-in-x-y-order',
+                  'result[0] * 2 == self.data.shape[2] - 1 and '
+                  'result[1] * 2 == self.data.shape[1] - 1')],
+        mutants=[('(np.array(self.data.shape) - 1) / 2', '(np.array(self.data.shape) - 1) // 2'),
+                 ('return xyorigin[::-1]', 'return xyorigin[1:]'),
+                 ('return xyorigin[::-1]', 'return xyorigin'),
+                 ('(np.array(self.data.shape) - 1) / 2', '(np.array(self.data.shape)) / 2')],
+    ))
+    reg.record('GriddedPSFModelGrid', {'_xgrid': ('seq', 'real'), '_ygrid': ('seq', 'real')})
+    srt = lambda g: (f'forall(lambda k, m: implies(k < m, self.{g}[k] < self.{g}[m]), '  # noqa: E731
+                     f'(0, len(self.{g})), (0, len(self.{g})))')
+
+    def cell(g, v, i):
+        n = f'len(self.{g})'
+        return (f'0 <= {i} and {i} <= {n} - 2 and '
+                f'implies(self.{g}[0] <= {v} and {v} <= self.{g}[{n} - 1], '
+                f'self.{g}[{i}] <= {v} and {v} <= self.{g}[{i} + 1]) and '
+                f'implies({v} < self.{g}[0], {i} == 0) and '
+                f'implies({v} > self.{g}[{n} - 1], {i} == {n} - 2)')
+    reg.add(Contract(
+        target=f'{G}._find_bounding_points', props=['C13'], kind='method', tag='cell',
+        block=('xidx', 'yidx'),
+        params={'self': 'GriddedPSFModelGrid', 'x': 'real', 'y': 'real'},
+        requires=['len(self._xgrid) >= 2', 'len(self._ygrid) >= 2', srt('_xgrid'), srt('_ygrid')],
+        ensures=[('x-cell-contains-x-or-is-the-nearest', cell('_xgrid', 'x', 'xidx')),
+                 ('y-cell-contains-y-or-is-the-nearest', cell('_ygrid', 'y', 'yidx'))],
+        mutants=[('xidx = np.searchsorted(self._xgrid, x) - 1', 'xidx = np.searchsorted(self._xgrid, x)'),
+                 ('yidx = np.searchsorted(self._ygrid, y) - 1', 'yidx = np.searchsorted(self._xgrid, y) - 1'),
+                 ('xidx = np.clip(xidx, 0, len(self._xgrid) - 2)', 'xidx = np.clip(xidx, 0, len(self._xgrid) - 1)'),
+                 ('yidx = np.clip(yidx, 0, len(self._ygrid) - 2)', 'yidx = np.clip(yidx, 1, len(self._ygrid) - 2)')],
+    ))
